@@ -291,6 +291,8 @@ pub enum Fault {
     WriteAfterBytes { after_bytes: usize, kind: ErrKind },
     /// The write call with this index returns `Ok(0)`.
     WriteZero { call: usize },
+    /// The flush call with this index fails (only reachable if the library flushes).
+    Flush { call: usize, kind: ErrKind },
     /// The closure call with this index fails, optionally after having
     /// written its replacement.
     Closure { call: usize, kind: ErrKind, after_write: bool },
